@@ -50,6 +50,7 @@ var c10Hists = []c10Hist{
 	{"unsafe-invalidation", []c10Step{{0, "GET", U, nil, "200:max-age=100"}, {0, "GET", c10Sib, nil, "200:max-age=100"}, {5, "POST", U, nil, "201loc"}, {1, "GET", U, nil, "200:max-age=100"}}},
 	{"only-if-cached", []c10Step{{0, "GET", U, []string{"Cache-Control", "only-if-cached"}, "200:max-age=100"}, {0, "GET", U, nil, "200:max-age=100"}, {5, "GET", U, []string{"Cache-Control", "only-if-cached"}, "200:max-age=100"}}},
 	{"variants", []c10Step{{0, "GET", U, []string{"X-A", "1"}, "vary200"}, {1, "GET", U, []string{"X-A", "2"}, "vary200"}, {1, "GET", U, []string{"X-A", "1"}, "vary200"}}},
+	{"variants-nil-header", []c10Step{{0, "GET", U, []string{"X-A", "1"}, "vary200"}, {1, "GET", U, []string{"X-A", "\x00nil"}, "vary200"}, {1, "GET", U, []string{"X-A", "1"}, "vary200"}}},
 	{"stale-if-error", []c10Step{{0, "GET", U, nil, "200:max-age=5, stale-if-error=100"}, {10, "GET", U, nil, "503"}}},
 }
 
@@ -283,6 +284,11 @@ func c10Run(x *mc.X, hist c10Hist, logger string, replay []int, record *[]int) (
 		})
 		nf := len(faults)
 		req := world.Req(st.method, st.url, st.hdr...)
+		for k, v := range req.Header {
+			if len(v) == 1 && v[0] == "\x00nil" {
+				req.Header[k] = nil // net/http's documented way to suppress a header: the key is present without values
+			}
+		}
 		o := w.Do(req)
 		newFaults := faults[nf:]
 		x.Transitions(1 + len(o.Ops) + len(o.Calls) + len(o.BgCalls))
